@@ -465,7 +465,7 @@ Definition v_step (st : vstate) (s : segment) : option vstate :=
         let fresh := if sof_progressive n then true
                      else forallb (fun id => negb (existsb (Z.eqb id) (vs_coded st))) ids in
         let approx := if sof_progressive n then forallb (fun id => prog_scan_ok (vs_prog st) id ss se ah) ids else true in
-        if scan_comps_ok fc sc && spectral && tables && fresh && approx
+        if scan_comps_ok fc sc && nodupZ ids && spectral && tables && fresh && approx
         then Some {| vs_sof := vs_sof st; vs_q := vs_q st; vs_dc := vs_dc st; vs_ac := vs_ac st;
                      vs_ri := vs_ri st; vs_scans := S (vs_scans st); vs_coded := ids ++ vs_coded st;
                      vs_prog := if sof_progressive n then prog_update (vs_prog st) ids ss se al else vs_prog st |}
@@ -1470,18 +1470,41 @@ Definition enc_diff (c : hcoder) (d : Z) : option (list bool) :=
   if d =? 32768 then hc_enc c 16
   else match hc_enc c (category d) with Some b => Some (b ++ extra_bits d) | None => None end.
 
+(* the predictions use only samples coded before (H.1.2.1: Ra, Rb, Rc are reconstructed
+   neighbours), so the encoder tracks the same arrays as the decoder: src = all samples of
+   the scan components (point-transformed), coded = those coded so far *)
 Fixpoint lenc_samples (cs : list hcoder) (ws : list Z) (psv p pt : Z) (row0 : list Z)
-         (pos : list (nat * Z * Z)) (arrs : list (PM.t Z)) : option (list bool) :=
+         (pos : list (nat * Z * Z)) (src coded : list (PM.t Z)) : option (list bool * list (PM.t Z)) :=
   match pos with
-  | [] => Some []
+  | [] => Some ([], coded)
   | (j, r, c) :: t =>
-    let m := nth j arrs (PM.empty Z) in let w := nth j ws 1 in
+    let m := nth j coded (PM.empty Z) in let w := nth j ws 1 in
+    let s := lget (nth j src (PM.empty Z)) w r c in
     let px := if r =? nth j row0 0 then (if c =? 0 then 2 ^ (p - pt - 1) else lget m w r (c - 1))
               else if c =? 0 then lget m w (r - 1) c
               else predict psv (lget m w r (c - 1)) (lget m w (r - 1) c) (lget m w (r - 1) (c - 1)) in
-    match enc_diff (nth j cs none_coder) (ldiff (lget m w r c) px), lenc_samples cs ws psv p pt row0 t arrs with
-    | Some a, Some b => Some (a ++ b)
-    | _, _ => None
+    match enc_diff (nth j cs none_coder) (ldiff s px) with
+    | None => None
+    | Some a =>
+      match lenc_samples cs ws psv p pt row0 t src (set_nth j (lset m w r c s) coded) with
+      | Some (b, coded') => Some (a ++ b, coded')
+      | None => None
+      end
+    end
+  end.
+
+Fixpoint lenc_intervals (cs : list hcoder) (ws : list Z) (psv p pt : Z) (ncomp : nat)
+         (ivs : list (list (nat * Z * Z))) (src coded : list (PM.t Z)) : option (list (list Z) * list (PM.t Z)) :=
+  match ivs with
+  | [] => Some ([], coded)
+  | pos :: it =>
+    match lenc_samples cs ws psv p pt (first_rows ncomp pos) pos src coded with
+    | None => None
+    | Some (bits, coded1) =>
+      match lenc_intervals cs ws psv p pt ncomp it src coded1 with
+      | Some (ds, coded') => Some (pack bits :: ds, coded')
+      | None => None
+      end
     end
   end.
 
@@ -1515,12 +1538,17 @@ Definition lw_step (im : limage) (st : lstate) (it : litem) : option (lstate * (
           let hv := map (fun i : nat * Z * Z * Z * Z => let '(_, h, v, _, _) := i in (h, v)) info in
           let cs := map (fun i : nat * Z * Z * Z * Z => let '(_, _, _, td, _) := i in get_coder (ls_dc st) td) info in
           let ws := map (fun q : Z * Z => lscan_w g hv (fst q)) hv in
-          let arrs := map (fun i : nat * Z * Z * Z * Z => let '(fi, _, _, _, _) := i in
-                             pm_of_list (nth fi (li_samples im) []) pt) info in
+          let src := map (fun i : nat * Z * Z * Z * Z => let '(fi, _, _, _, _) := i in
+                            pm_of_list (nth fi (li_samples im) []) pt) info in
           let ivs := map (fun l => concat l) (intervals (ls_ri st) (lscan_mcus g hv)) in
-          match map_opt (fun pos => option_map pack (lenc_samples cs ws psv p pt (first_rows (length sc) pos) pos arrs)) ivs with
-          | Some (d0 :: ds) =>
-              Some (st, (f, SegSOS sc psv 0 0 pt d0 (combine (map (fun k => nth k rf O) (seq 0 (length ds))) ds)))
+          if negb (ls_ri st mod (match hv with [(h, _)] => comp_ws g h | _ => lmcu_cols g end) =? 0) then None else
+          match lenc_intervals cs ws psv p pt (length sc) ivs src (repeat (PM.empty Z) (length sc)) with
+          | Some (d0 :: ds, coded) =>
+              Some ({| ls_sof := ls_sof st; ls_dc := ls_dc st; ls_ri := ls_ri st;
+                       ls_out := ls_out st ++
+                         map (fun ja : (nat * Z * Z * Z * Z) * (Z * PM.t Z) =>
+                                let '((i, _, _, _, _), (w, m)) := ja in (i, w, pt, m)) (combine info (combine ws coded)) |},
+                    (f, SegSOS sc psv 0 0 pt d0 (combine (map (fun k => nth k rf O) (seq 0 (length ds))) ds)))
           | _ => None
           end
         end
